@@ -61,7 +61,8 @@ LEVEL_TEXT = ("Lean 4 theorems over two executable models of expandCellsToDensit
               "that nothing rounds, the rounded model by an exact differential stream on ARBITRARY arguments (full-mantissa "
               "targets, margins, caps, factors, penalties, congestion values; widths up to 2^28; all widths, the "
               "returned ratio and every expansion factor compared bit for bit); on every instance the property's clauses are "
-              "evaluated directly on the real code; an "
+              "evaluated directly on the real code (congestion maps include the same rectangle listed 2-4 times with different "
+              "values, the largest first / last / in the middle, and the same map listed in another order); an "
               "object-history stream interleaves every public mutator (setRows, setupRows with all flag combinations, the "
               "per-cell setters, setSolution, addNet) with the four observed calls on one Circuit object (same call twice, call "
               "-> one mutator -> same call, the same side margin within a history) and checks each call against the oracle on "
